@@ -61,6 +61,7 @@ pub open spec fn wf(e: Expression, ids: Ids) -> bool
 }
 
 // identifier bodies are well formed and contain no identifiers (so evaluation terminates)
+#[verifier::opaque]
 pub open spec fn ids_wf(ids: Ids) -> bool {
     forall|k: String| ids.contains_key(k) ==> solvable(#[trigger] ids[k]) && wf(ids[k], ids) && !has_ident(ids[k])
 }
@@ -81,6 +82,10 @@ pub open spec fn and3(s: Seq<SolverResult>) -> SolverResult
 pub open spec fn any3(s: Seq<SolverResult>, r: SolverResult) -> bool {
     exists|i: int| 0 <= i < s.len() && s[i] == r
 }
+
+// opaque twin of any3(s, True), used where the quantifier must not leak into large queries
+#[verifier::opaque]
+pub open spec fn some_true(s: Seq<SolverResult>) -> bool { any3(s, SolverResult::True) }
 
 pub open spec fn or3(s: Seq<SolverResult>) -> SolverResult {
     if any3(s, SolverResult::True) { SolverResult::True }
@@ -109,12 +114,10 @@ pub open spec fn of3(s: Seq<SolverResult>, n: u64) -> SolverResult {
 // ---------------------------------------------------------------- comparisons and casts (C09)
 pub ghost enum Opd { Val(V), Missing, False }
 
-pub uninterp spec fn f64_one() -> f64;
-pub uninterp spec fn f64_zero() -> f64;
 
 pub open spec fn cast_flt(v: V) -> Opd {
     match v {
-        V::Bool(x) => Opd::Val(V::Float(if x { f64_one() } else { f64_zero() })),
+        V::Bool(x) => Opd::Val(V::Float(if x { 1.0f64 } else { 0.0f64 })),
         V::Float(x) => Opd::Val(V::Float(x)),
         V::Int(x) => Opd::Val(V::Float(i64_as_f64(x))),
         V::Str(x) => match parse_f64(x) { Some(i) => Opd::Val(V::Float(i)), None => Opd::False },
@@ -279,12 +282,18 @@ pub open spec fn elem_text(v: V, cast: bool) -> Option<Seq<char>> {
     }
 }
 
+// some element of the array (strings always, scalars under the cast) satisfies the search
+#[verifier::opaque]
+pub open spec fn search_array_rel(kind: Search, a: ArrM, cast: bool) -> bool {
+    exists|k: int| 0 <= k < arr_elems(a).len()
+        && (#[trigger] elem_text(arr_elems(a)[k], cast)) is Some && search_rel(kind, elem_text(arr_elems(a)[k], cast)->Some_0)
+}
+
 pub open spec fn sem_search(kind: Search, f: Seq<char>, cast: bool, d: DocM) -> SolverResult {
     match dm_find(d, f) {
         None => SolverResult::Missing,
         Some(V::Str(x)) => b3(search_rel(kind, x)),
-        Some(V::Array(a)) => b3(exists|k: int| 0 <= k < arr_elems(a).len()
-            && (#[trigger] elem_text(arr_elems(a)[k], cast)) is Some && search_rel(kind, elem_text(arr_elems(a)[k], cast)->Some_0)),
+        Some(V::Array(a)) => b3(search_array_rel(kind, a, cast)),
         Some(v) => if cast && scalar_text(v) is Some { b3(search_rel(kind, scalar_text(v)->Some_0)) } else { SolverResult::Missing },
     }
 }
@@ -359,8 +368,8 @@ pub open spec fn sem3(e: Expression, ids: Ids, d: DocM) -> SolverResult
         Expression::BooleanGroup(BoolSym::And, g) => and3(sems(g, ids, d, e)),
         Expression::BooleanGroup(BoolSym::Or, g) => or3(sems(g, ids, d, e)),
         Expression::BooleanExpression(l, op, r) =>
-            if op == BoolSym::And { and3(seq![sem3(*l, ids, d), sem3(*r, ids, d)]) }
-            else if op == BoolSym::Or { or3(seq![sem3(*l, ids, d), sem3(*r, ids, d)]) }
+            if op == BoolSym::And { and2(sem3(*l, ids, d), sem3(*r, ids, d)) }
+            else if op == BoolSym::Or { or2(sem3(*l, ids, d), sem3(*r, ids, d)) }
             else { sem_cmp(*l, op, *r, d) },
         Expression::Identifier(i) =>
             if ids.contains_key(i) && !has_ident(ids[i]) { sem3(ids[i], ids, d) } else { SolverResult::Missing },
@@ -382,7 +391,7 @@ pub open spec fn sem3(e: Expression, ids: Ids, d: DocM) -> SolverResult
         Expression::Nested(f, x) => match dm_find(d, f@) {
             None => SolverResult::Missing,
             Some(V::Object(o)) => sem3(*x, ids, DocM::Obj(o)),
-            Some(V::Array(a)) => sem_nested_array(*x, ids, a, e),
+            Some(V::Array(a)) => sem_nested_array(*x, ids, a),
             Some(_) => SolverResult::False,
         },
         Expression::Search(kind, f, cast) => sem_search(kind, f@, cast, d),
@@ -396,14 +405,13 @@ proof fn sem3_decreases(e: Expression, ids: Ids, d: DocM) {
 }
 
 #[via_fn]
-proof fn sem_nested_array_decreases(x: Expression, ids: Ids, a: ArrM, parent: Expression) {
+proof fn sem_nested_array_decreases(x: Expression, ids: Ids, a: ArrM) {
     reveal_with_fuel(has_ident, 4);
 }
 
 // a nested mapping over an array of objects: "some element satisfies it" (C10)
-pub open spec fn sem_nested_array(x: Expression, ids: Ids, a: ArrM, parent: Expression) -> SolverResult
-    decreases lvl(parent), parent, 0int,
-    when decreases_to!(parent => x) && lvl(x) <= lvl(parent)
+pub open spec fn sem_nested_array(x: Expression, ids: Ids, a: ArrM) -> SolverResult
+    decreases lvl(x), x, 2int,
     via sem_nested_array_decreases
 {
     let objs = obj_elems(a);
@@ -413,8 +421,8 @@ pub open spec fn sem_nested_array(x: Expression, ids: Ids, a: ArrM, parent: Expr
             Expression::BooleanGroup(BoolSym::Or, g) => and3(Seq::new(g.len() as nat, |j: int|
                 or3(Seq::new(objs.len(), |k: int| if 0 <= j < g.len() { sem3(g[j], ids, DocM::Obj(objs[k])) } else { SolverResult::Missing })))),
             Expression::Matrix(cols, rows) => sem_nested_array_matrix(cols, rows, ids, a),
-            _ => b3(exists|k: int| 0 <= k < objs.len() && sem3(x, ids, DocM::Obj(#[trigger] objs[k])) == SolverResult::True),
+            _ => b3(some_true(Seq::new(objs.len(), |k: int| sem3(x, ids, DocM::Obj(objs[k]))))),
         },
-        _ => b3(exists|k: int| 0 <= k < objs.len() && sem3(x, ids, DocM::Obj(#[trigger] objs[k])) == SolverResult::True),
+        _ => b3(some_true(Seq::new(objs.len(), |k: int| sem3(x, ids, DocM::Obj(objs[k]))))),
     }
 }
